@@ -10,7 +10,7 @@
 From Coq Require Import List ZArith NArith Bool Arith String.
 Import ListNotations.
 From DD Require Import Base.PyStr Base.Value Path.PathModel Diff.Tree Diff.DiffModel Diff.TextView
-  Views.ViewsModel Views.ViewsChains Views.ViewsProofs Hash.HashModel DiffIO.DiffIOModel Views.ViewsIO.
+  Views.ViewsModel Views.ViewsChains Views.ViewsProofs Hash.HashModel DiffIO.DiffIOModel Views.ViewsIO Views.ViewsIOChains.
 
 (* ---- tree view vs text view ---------------------------------------- *)
 
@@ -175,7 +175,8 @@ Print Assumptions C10_chain_link.
    DiffIO/DiffIOModel.v fed the pairing the implementation uses:
    [3, 1, 2] -> [4, 4, 3] (values_changed root[2], t2 = 4, t2[2] = 3) and
    [4, 4, 1] -> [1, 4, 2] (repetition_change root[0], t2 = 4, t2[0] = 1).
-   The guarded statement is C10_chains_ok + C04_entries_resolve (ordered mode). *)
+   The guarded statements are C10_io_chains_ok (report_repetition=False) and
+   C10_io_repetition_chains_partial (no repeated items). *)
 Theorem C10_io_repetition_leaf_refuted :
   (exists e, In e (w_io_run (fun _ => [(0, 2)]) (ints [3; 1; 2]%Z) (ints [4; 4; 3]%Z)) /\
              ekind e = KValue /\ et2 e = Some (VAtom (AInt 4)) /\
@@ -185,3 +186,68 @@ Theorem C10_io_repetition_leaf_refuted :
              resolve (ints [1; 4; 2]%Z) (ep2 e) = Some (VAtom (AInt 1))).
 Proof. split; [exact io_rep_paired_leaf_refuted|exact io_rep_change_leaf_refuted]. Qed.
 Print Assumptions C10_io_repetition_leaf_refuted.
+
+(* ---- ignore_order: chains, leaves, text view ------------------------------ *)
+
+(* ignore_order=True, report_repetition=False, EVERY pairing oracle (valid or
+   not), hasher, skip/excl, cfg: every node above the leaf of every level exists
+   in both inputs, and (for the levels diff_io itself reports; a values_changed
+   made by mutual_add_removes takes its t2 object from the added level it
+   absorbs) the leaf objects are the sub-objects of the inputs named by ep1 / ep2
+   ([leaf_ok]; for a set item: a member of the set the path names) *)
+Theorem C10_io_chains_ok :
+  forall H udiff skip excl c pairs t1 t2,
+    wf t1 = true -> wf t2 = true ->
+    forall e, In e (fst (run_diff_io H udiff skip excl c false pairs t1 t2)) ->
+      chain_ok t1 t2 e /\
+      (In e (fst (diff_io H udiff skip excl c false pairs t1 t2 [] [])) -> leaf_ok t1 t2 e).
+Proof. exact run_io_chains. Qed.
+Print Assumptions C10_io_chains_ok.
+
+(* ... hence the text view of every such run is the documented projection, no guard *)
+Theorem C10_io_text_is_projection :
+  forall H udiff skip excl c pairs verbose t1 t2,
+    wf t1 = true -> wf t2 = true ->
+    Forall2 (describes verbose)
+            (filter (visible verbose) (fst (run_diff_io H udiff skip excl c false pairs t1 t2)))
+            (text_view verbose (fst (run_diff_io H udiff skip excl c false pairs t1 t2))).
+Proof. exact run_io_text_projection. Qed.
+Print Assumptions C10_io_text_is_projection.
+
+(* report_repetition=True: the guarded counterpart of C10_io_repetition_leaf_refuted.
+   [norep]: no list / tuple anywhere in the input holds two items with the same hash *)
+Theorem C10_io_repetition_chains_partial :
+  forall H udiff skip excl c pairs t1 t2,
+    wf t1 = true -> wf t2 = true ->
+    norep H c true t1 = true -> norep H c true t2 = true ->
+    forall e, In e (fst (run_diff_io H udiff skip excl c true pairs t1 t2)) ->
+      chain_ok t1 t2 e /\ leaf_ok t1 t2 e.
+Proof. exact run_io_rep_chains. Qed.
+Print Assumptions C10_io_repetition_chains_partial.
+
+(* ---- repetition_change in the text view and to_json ----------------------- *)
+
+(* one record per repetition_change level, in order, under the level's path,
+   with value = the level's t1 and the indexes recorded for that path *)
+Theorem C10_repetition_text :
+  forall es rs,
+    Forall2 (fun e t => trpath t = render (ep1 e) /\ trval t = opt_val (et1 e) /\
+                        (trold t, trnew t) = rep_lookup (ep1 e) rs)
+            (filter (fun e => rkind_eqb (ekind e) KRepetition) es) (rep_view es rs).
+Proof. exact rep_view_spec. Qed.
+Print Assumptions C10_repetition_text.
+
+(* the complete to_json document: categories = those of the text view plus
+   repetition_change iff there is such a level; member names = the paths *)
+Theorem C10_json_full_same_keys :
+  forall verbose ts reps j,
+    json_full verbose ts reps = Some j ->
+    exists cats, j = JObj cats /\
+      (forall name, In name (map fst cats) <->
+         (exists t, In t ts /\ cat_name (tcat t) = name) \/ (name = rep_name /\ reps <> [])) /\
+      (forall c payload, In (cat_name c, payload) cats ->
+         forall p, In p (jmembers payload) <-> exists t, In t ts /\ tcat t = c /\ tpath t = p) /\
+      (forall payload, In (rep_name, payload) cats ->
+         forall p, In p (jmembers payload) <-> exists t, In t reps /\ trpath t = p).
+Proof. exact json_full_same_keys. Qed.
+Print Assumptions C10_json_full_same_keys.
